@@ -78,6 +78,7 @@ class Report:
         self.flags = set()         # names of coverage facts seen (for vacuity guards)
         self.notes = []
         self.fp_counts = {}        # fingerprint tail -> number of occurrences (details kept for the first few only)
+        self.class_suffix = ""     # appended to every input_class (e.g. the stale-attribute-blackboard mode)
         self.stop_on = None        # replay mode: fingerprint tail (subcheck, callee, kind, input_class) to stop at
 
     # -- recording -------------------------------------------------------------------------
@@ -104,7 +105,7 @@ class Report:
 
     def violation(self, subcheck, callee, kind, input_class, detail=None):
         """fingerprint = (subcheck, callee, kind, input_class); detail = concrete counterexample."""
-        key = (str(subcheck), str(callee), str(kind), str(input_class))
+        key = (str(subcheck), str(callee), str(kind), str(input_class) + self.class_suffix)
         c = self.fp_counts.get(key, 0)
         self.fp_counts[key] = c + 1
         if c < 2:
@@ -112,7 +113,7 @@ class Report:
                 "subcheck": key[0], "callee": key[1], "kind": key[2],
                 "input_class": key[3], "detail": jsonable(detail),
             })
-        if self.stop_on is not None and self.stop_on == (str(subcheck), str(callee), str(kind), str(input_class)):
+        if self.stop_on is not None and self.stop_on == key:
             raise ReplayHit()
 
     # -- merging ----------------------------------------------------------------------------
